@@ -46,7 +46,7 @@ def cases(tier, seed):
     # histories of read() calls with varying sizes on one stream (raw and through small buffered readers)
     for n in ((8, 15, 22, 36) if tier == "quick" else (8, 9, 15, 22, 36, 50, 64)):
         for buf in (0, 4, 16):
-            for plan in ([3, 64], [2, 50], [1], [6, 7], [7, 1], [64, 3], [5]):
+            for plan in ([3, 64], [2, 50], [1], [6, 7], [7, 1], [64, 3], [5], [1, -1], [3, -1], [6, -1]):
                 for crc in ("granted", "not-requested"):
                     out.append({"n": n, "crc": crc, "D": 1 if n <= 22 or tier == "thorough" else 0, "seed": seed,
                                 "buffering": buf, "reads": plan})
@@ -106,7 +106,12 @@ def one(case, ch):
             if case.get("reads"):
                 got, k = b"", 0
                 while True:
-                    chunk = fp.read(case["reads"][k % len(case["reads"])])
+                    size = case["reads"][k % len(case["reads"])]
+                    if size > 0 and case["buffering"] == 0:
+                        buf = bytearray(size)                      # raw stream: readinto() with the caller's buffer
+                        chunk = bytes(buf[:fp.readinto(buf) or 0])
+                    else:
+                        chunk = fp.read(size)                      # size -1: everything that is left
                     k += 1
                     if not chunk:
                         break
